@@ -90,6 +90,23 @@ def gen(rng, tier):
                 found += 1
                 if found == 2:
                     break
+    # directed: Byron-legacy seeds whose master key needs many rounds of the "Root Seed Chain %d" search (round count computed with
+    # hmac/hashlib from the scheme's definition: a candidate is rejected when bit 5 of the last byte of SHA-512(IL)[:32] is set)
+    want_rounds = [7, 11] if tier == "quick" else [7, 11, 12, 13, 14]
+    got_rounds = set()
+    for j in range(6000 if tier == "quick" else 60000):
+        seed = rng.getrandbits(256).to_bytes(32, "big")
+        data = b"\x58\x20" + seed
+        r = 1
+        while hashlib.sha512(hmac.new(data, b"Root Seed Chain %d" % r, hashlib.sha512).digest()[:32]).digest()[31] & 0x20:
+            r += 1
+        for w in want_rounds:
+            if r >= w and w not in got_rounds:
+                got_rounds.add(w)
+                yield Case("kholawderive", ["byronlegacy", hx(seed), "-", 0], "byron-master-rounds-%d" % w)
+                yield Case("byronaddr", [hx(seed), 0, 1], "byron-master-rounds-%d" % w)
+        if len(got_rounds) == len(want_rounds):
+            break
     # directed: Shelley payment keys whose 32-byte encoding starts (or ends) with a zero byte
     for i in range(3 if tier == "quick" else 40):
         mem = [c.name for c in Cip1852Coins][i % len(Cip1852Coins)]
